@@ -29,11 +29,16 @@ type Scenario struct {
 	Opt   vs.Options
 	Bound int  // preemption bound (<0 unbounded)
 	Prune bool // state-key pruning (only with Bound < 0)
-	Body  func()
+	// Deviations > 0 bounds the number of non-default choices of any kind per execution.
+	Deviations int
+	Body       func()
 	// Check inspects one complete execution: outcome label + violations.
 	Check func(e *vs.Exec) (string, []Viol)
 	// MaxExecs caps the exploration of this scenario (0 = none); hitting it is reported.
 	MaxExecs int64
+	// Shards > 1 splits the scenario's choice tree over that many work items (big scenarios).
+	Shards         int
+	shard, nshards int
 }
 
 type replayCase struct {
@@ -67,7 +72,7 @@ func generic(e *vs.Exec) []Viol {
 }
 
 func runScenario(id string, s *Scenario, out *workerOut, deadline time.Time) {
-	x := &vs.Explorer{Opt: s.Opt, Bound: s.Bound, Prune: s.Prune && s.Bound < 0, MaxExecs: s.MaxExecs, Deadline: deadline}
+	x := &vs.Explorer{Opt: s.Opt, Bound: s.Bound, Prune: s.Prune && s.Bound < 0, MaxExecs: s.MaxExecs, Deadline: deadline, Shard: s.shard, NShards: s.nshards, Deviations: s.Deviations}
 	seenKey := map[string]bool{}
 	x.Check = func(e *vs.Exec) string {
 		if e.Abort == "NONDETERMINISM" || e.Abort == "HANG" {
@@ -144,6 +149,21 @@ func RunAll(r *vk.Run, scenarios []Scenario, budget time.Duration) {
 	if r.Replay != "" {
 		replay(r, scenarios)
 		return
+	}
+	{ // expand sharded scenarios into one work item per shard (interleaved so they spread over workers)
+		var expanded []Scenario
+		for _, s := range scenarios {
+			if s.Shards <= 1 {
+				expanded = append(expanded, s)
+				continue
+			}
+			for k := 0; k < s.Shards; k++ {
+				t := s
+				t.shard, t.nshards = k, s.Shards
+				expanded = append(expanded, t)
+			}
+		}
+		scenarios = expanded
 	}
 	if strings.HasPrefix(r.Worker, "shard:") {
 		var i, n int
